@@ -14,7 +14,7 @@ use crate::proto::{Ctx, attrs};
 pub fn meta() -> Meta {
     Meta {
         level: "model_checking",
-        rule: "the recorder program is built in 4 (quick: both backends, each once with cache+multi-threading on and once with both off) / all 8 (thorough) feature configurations {manager-index, manager-pointer} x {apply-cache-direct-mapped on, off} x {multi-threading on, off} and run with 1 and 2 (thorough: 1, 2, 8) worker threads (split depth 2 when > 1). Workload per run: for bdd, bcdd, zbdd and each of the 6 orders: all 64x64 operand pairs of a closed 64-function subset for the 8 binary connectives, 22^3 ite triples, not/eval/gc/audit, the rest of the API surface (quantifiers and apply-quantify for all 8 variable subsets, substitute, restrict for all 27 cubes, pick_cube*, sat_count, cofactors, ZBDD subset0/subset1/change/union/intsec/diff/singleton); every history of depth 3 (thorough 4) over 12 actions (5 operations, clone, 2 drops, gc, add_vars, reverse/rotate reordering) on a fresh manager with tables, node counts, variable order, gc return values and the full structural + reference-count audit recorded after every step; TDD: all 27^2 pairs for 8 connectives and all 27^3 ite triples on one variable. Oracle: every observation equals the truth-table model (checked inside the recorder) and all transcripts are identical. states = distinct transcript lines, transitions = history steps + operations executed per run, executions = recorder runs.",
+        rule: "the recorder program is built in 4 (quick: both backends, each once with cache+multi-threading on and once with both off) / all 8 (thorough) feature configurations {manager-index, manager-pointer} x {apply-cache-direct-mapped on, off} x {multi-threading on, off} and run with 1 and 2 (thorough: 1, 2, 8) worker threads (split depth 2 when > 1). Workload per run: for bdd, bcdd, zbdd and each of the 6 orders: all 64x64 operand pairs of a closed 64-function subset for the 8 binary connectives, 22^3 ite triples, not/eval/gc/audit, the rest of the API surface (quantifiers and apply-quantify for all 8 variable subsets, substitute, restrict for all 27 cubes, pick_cube*, sat_count, cofactors, ZBDD subset0/subset1/change/union/intsec/diff/singleton); every history of depth 4 (quick with more than one worker: 3) over 12 actions (5 operations, clone, 2 drops, gc, add_vars, reverse/rotate reordering) on a fresh manager with tables, node counts, variable order, gc return values and the full structural + reference-count audit recorded after every step; TDD: all 27^2 pairs for 8 connectives and all 27^3 ite triples on one variable. Oracle: every observation equals the truth-table model (checked inside the recorder) and all transcripts are identical. states = distinct transcript lines, transitions = history steps + operations executed per run, executions = recorder runs.",
         assumptions: vec![
             "MTBDD exists for the index backend only (the library offers no pointer-based MTBDD) and is therefore not part of the cross-configuration comparison".into(),
             "the configurations are separate builds of the same recorder source; cargo feature unification is avoided by building each with its own target directory".into(),
@@ -51,22 +51,24 @@ pub fn run(ctx: &mut Ctx) {
     let root = std::env::var("VERIF_ROOT").unwrap_or_else(|_| "/verif".into());
     let cfgs = configs(&tier);
     let threads: Vec<u32> = if tier == "thorough" { vec![1, 2, 8] } else { vec![1, 2] };
-    let depth = if tier == "thorough" { 4 } else { 3 };
+    // histories: depth 4 with one worker (cheap), depth 3 with several workers in the quick tier
+    let depth_of = |t: u32| -> usize { if tier == "thorough" || t == 1 { 4 } else { 3 } };
     // run all (config, threads) combinations in parallel
     let mut jobs = vec![];
     for (name, _) in &cfgs {
         for &t in &threads {
             let bin = format!("{root}/target/cfg_{name}/verif/cfgbin");
             let name = name.to_string();
+            let depth = depth_of(t);
             jobs.push(std::thread::spawn(move || {
                 let out = Command::new(&bin).arg(t.to_string()).arg(depth.to_string()).env("OXIDD_STACK_SIZE", (16 * 1024 * 1024).to_string()).output();
-                (name, t, bin, out)
+                (name, t, bin, out, depth)
             }));
         }
     }
     let mut transcripts: Vec<(String, u32, Vec<String>)> = vec![];
     let results: Vec<_> = jobs.into_iter().map(|j| j.join().unwrap()).collect();
-    for (name, t, bin, out) in results {
+    for (name, t, bin, out, depth) in results {
         ctx.group(&format!("run {name} threads {t}"), |ctx| {
             ctx.count("evaluations", 1);
             ctx.count("executions", 1);
@@ -105,8 +107,14 @@ pub fn run(ctx: &mut Ctx) {
         });
     }
     ctx.group("compare transcripts", |ctx| {
-        let Some((rname, rt, reference)) = transcripts.first().cloned() else { return };
+        let Some((rname0, rt0, reference0)) = transcripts.first().cloned() else { return };
         for (name, t, lines) in transcripts.iter().skip(1) {
+            // compare with the first transcript of the same history depth (= same thread class);
+            // the depth-independent suite lines are the same in every transcript
+            let same = transcripts.iter().find(|(_, t2, _)| depth_of(*t2) == depth_of(*t)).cloned().unwrap();
+            let (rname, rt, reference) = if same.0 == *name && same.1 == *t { (rname0.clone(), rt0, reference0.iter().filter(|l| !l.starts_with("hist ")).cloned().collect::<Vec<_>>()) } else { same };
+            let lines: Vec<String> = if reference.iter().any(|l| l.starts_with("hist ")) { lines.clone() } else { lines.iter().filter(|l| !l.starts_with("hist ")).cloned().collect() };
+            let lines = &lines;
             ctx.count("evaluations", 1);
             ctx.count("nontrivial", 1);
             let n = reference.len().max(lines.len());
@@ -126,6 +134,6 @@ pub fn run(ctx: &mut Ctx) {
                 }
             }
         }
-        ctx.sample(|| json!({"reference": format!("{rname} t{rt}"), "lines": reference.len(), "example_lines": reference.iter().take(2).collect::<Vec<_>>()}));
+        ctx.sample(|| json!({"reference": format!("{rname0} t{rt0}"), "lines": reference0.len(), "example_lines": reference0.iter().take(2).collect::<Vec<_>>()}));
     });
 }
